@@ -21,8 +21,10 @@ CLAIMED = {
              "trimming, for every axis length, origin inside the frame and crop mode: the origin lands at size//2; "
              "maintain_size is a pure translation with zero fill; valid_region is the largest symmetric block of "
              "original pixels; maintain_data keeps every pixel with minimal symmetric padding; unselected/None axes "
-             "untouched; negative origins wrap; odd_size/square guarantees. Tied to abel/tools/center.py by bit-exact "
-             "correspondence; for fractional origins the order-1 (linear interpolation) shift is modelled and its exact conservation "
+             "untouched; negative origins wrap; odd_size/square guarantees; center_image with an explicit whole-pixel origin (trimming, "
+             "conversion of the origin from the input frame, centring, second squaring): the requested input pixel is the centre pixel "
+             "of the output, or the request is refused — exactly when the trimming removes that pixel. Tied to abel/tools/center.py by bit-exact "
+             "correspondence (labelled images, every crop / flag / origin incl. negative); for fractional origins the order-1 (linear interpolation) shift is modelled and its exact conservation "
              "of total intensity and first moment is proved (orders 2-5: measured).",
         note="Trusted: Lean kernel + standard axioms; model faithful as far as correspondence explores (shapes 1..8 "
              "quick / 1..12 thorough, all crops/axes, integer dtype, order=0 rounding); scipy.ndimage.shift (orders "
@@ -212,12 +214,14 @@ CLAIMED = {
              "of p((r−r₀)/s) for every degree, r₀ and s ≠ 0 of either sign (binomial theorem + sum exchange); Angular products are "
              "polynomial products; cossin(m, n) holds the coefficients of x^m(1−x²)^{n/2}; and, over the reals, Polynomial.abel (coefficient "
              "recursion C, Horner sum of a(k), the differences (y r^p)| and ln(r+y)|) is the Abel integral of Polynomial.func for every "
-             "degree, piece, shift, stretch and sample inside r_max (reduction formula of ∫ r^k dy by the fundamental theorem of calculus). Tie: Polynomial.func vs the Lean "
-             "transform; Angular products/cossin vs the model. Oracle: func and abel of random pieces vs the polynomial and vs "
+             "degree, piece, shift, stretch and sample inside r_max (reduction formula of ∫ r^k dy by the fundamental theorem of calculus); every "
+             "SPolynomial term r^m cos^n θ on [r_min, r_max) — the coded antiderivatives F(k, lim) for all integer k = n − m, closed forms, "
+             "upward and downward recursion — is projected exactly (two-sided reduction formula of ∫(r/ρ)^k dz, k ∈ ℤ). Tie: Polynomial.func vs the Lean "
+             "transform; Polynomial.abel and single-term SPolynomial.abel vs the Lean models; Angular products/cossin vs the model. Oracle: func and abel of random pieces vs the polynomial and vs "
              "scipy line-of-sight quadrature (relative to term size), piecewise sums, scalar ops, copies, SPolynomial on 2-D grids, "
              "Angular algebra, Legendre series, B-spline conversion, ApproxGaussian tolerances.",
-        note="Partial: the SPolynomial closed-form integrals (F recursion) and ApproxGaussian's tolerance are "
-             "measured (quadrature / dense grid), not proved. Trusted: Lean kernel + standard axioms; scipy quad.",
+        note="Partial: SPolynomial's shift/stretch and Horner assembly of the proved terms (linear) and ApproxGaussian's tolerance are "
+             "measured (quadrature / dense lattice of tolerances), not proved. Trusted: Lean kernel + standard axioms; scipy quad.",
         technique="Lean 4 proof (binomial theorem, finite-sum algebra) + differential correspondence + quadrature oracle",
         design="§3 C10"),
     "C11": dict(
